@@ -50,6 +50,14 @@ func (c *msgpackCodec) ReadResponseHeader(r *rpc.Response) error {
 }
 
 func (c *msgpackCodec) ReadResponseBody(body any) error {
+	if body == nil {
+		/* net/rpc passes nil to have the body read and discarded, e.g. the
+		 * placeholder body that follows an error response. Unlike gob,
+		 * msgpack refuses to decode into nil, and a failure here makes
+		 * net/rpc shut the whole client down and fail every other call in
+		 * flight on the same connection. */
+		return c.dec.Skip()
+	}
 	return c.dec.Decode(body)
 }
 
@@ -60,6 +68,10 @@ func (c *msgpackCodec) ReadRequestHeader(r *rpc.Request) error {
 }
 
 func (c *msgpackCodec) ReadRequestBody(body any) error {
+	if body == nil {
+		// Same as above, the body of a request that cannot be served is discarded
+		return c.dec.Skip()
+	}
 	return c.dec.Decode(body)
 }
 
